@@ -152,6 +152,9 @@ pub enum MRdata {
         target: MName,
         port: Option<u16>,
     },
+    /// ANAME (65305, draft-ietf-dnsop-aname; known to hickory): one uncompressed name, not in the
+    /// RFC 4034 §6.2 list, so its case is kept
+    Aname(MName),
     /// RFC 3597 opaque RDATA of a type with no special canonical rule; never empty
     Opaque {
         code: u16,
@@ -231,6 +234,7 @@ impl MRdata {
             | MRdata::TwoNames { code, .. }
             | MRdata::Svc { code, .. }
             | MRdata::Opaque { code, .. } => *code,
+            MRdata::Aname(_) => 65305,
         }
     }
 
@@ -258,6 +262,7 @@ impl MRdata {
             MRdata::PrefName { .. } => "rfc4034-listed-pref+name(unknown-to-hickory)",
             MRdata::TwoNames { .. } => "rfc4034-listed-two-names(unknown-to-hickory)",
             MRdata::Svc { .. } => "SVCB/HTTPS",
+            MRdata::Aname(_) => "ANAME",
             MRdata::Opaque { .. } => "opaque",
         }
     }
@@ -275,6 +280,7 @@ impl MRdata {
             MRdata::Nsec { next, .. } => vec![(next, false)],
             // not in the RFC 4034 §6.2 list
             MRdata::Svc { target, .. } => vec![(target, false)],
+            MRdata::Aname(n) => vec![(n, false)],
             MRdata::NameOnly { name, .. } | MRdata::PrefName { name, .. } => vec![(name, true)],
             MRdata::TwoNames { a, b, .. } => vec![(a, true), (b, true)],
             _ => vec![],
@@ -413,6 +419,7 @@ impl MRdata {
                     o.extend_from_slice(&p.to_be_bytes());
                 }
             }
+            MRdata::Aname(n) => put_name(&mut o, &n.labels, false),
             MRdata::Opaque { data, .. } => o.extend_from_slice(data),
         }
         o
@@ -449,6 +456,7 @@ impl MRdata {
             MRdata::NameOnly { code, name } => format!("TYPE{code} {}", n(name)),
             MRdata::PrefName { code, pref, name } => format!("TYPE{code} {pref} {}", n(name)),
             MRdata::TwoNames { code, a, b } => format!("TYPE{code} {} {}", n(a), n(b)),
+            MRdata::Aname(x) => format!("ANAME {}", n(x)),
             MRdata::Svc { code, prio, target, port } => format!("TYPE{code} {prio} {} port={port:?}", n(target)),
             other => format!("{} \\# {}", other.kind(), crate::core::hexser::to_hex(&other.raw())),
         }
